@@ -77,3 +77,58 @@ Proof.
   generalize (stage_polls g2 (snd (level g1 H (s_scr a, sh a))) (fst (level g1 H (s_scr a, sh a))) n).
   intros t. unfold conv. induction t as [|[h [b| |]] r IH]; simpl; auto. f_equal. exact IH.
 Qed.
+
+(* ------------------------------------------------------------------------------------ *)
+(* any depth.  Instead of "for every sufficient horizon", a checkable side condition: every
+   intermediate level's behaviour script contains the level's end within the horizon. *)
+Lemma emitted_when_ended {B} (m : machine B) s out s' : runs_to m s out s' ->
+  forall n, has_end (polls m n s) = true -> emitted (polls m n s) = out.
+Proof.
+  induction 1 as [s s' E|s b s1 out s2 E R IH|s s1 out s2 E R IH]; intros [|n] H;
+    try discriminate; simpl in *; rewrite E in *; simpl in *.
+  - reflexivity.
+  - f_equal. apply IH. exact H.
+  - apply IH. exact H.
+Qed.
+
+Lemma stage_emitted_when_ended (g : stage) uh l n :
+  has_end (stage_polls g uh l n) = true ->
+  emitted (stage_polls g uh l n) = stage_ref g (items l).
+Proof.
+  destruct g as [f| |p|o|g|p|p|k|k|]; simpl; intros H.
+  - destruct (@map_runs N N uh (ev_fn f) l) as [s' R]. exact (emitted_when_ended R n H).
+  - destruct (@inspect_runs N uh l) as [s' R]. exact (emitted_when_ended R n H).
+  - destruct (@filter_runs N uh (ev_pr p) l) as [s' R]. exact (emitted_when_ended R n H).
+  - destruct (@filter_map_runs N N uh (ev_op o) l) as [s' R]. exact (emitted_when_ended R n H).
+  - destruct (@flat_map_runs N N (ev_ls g) None l) as [s' R]. exact (emitted_when_ended R n H).
+  - destruct (@take_while_runs N uh (ev_pr p) l) as [s' R]. exact (emitted_when_ended R n H).
+  - destruct (@skip_while_runs N uh (ev_pr p) (true, l)) as [s' R]. exact (emitted_when_ended R n H).
+  - destruct (@take_runs N uh l k) as [s' R]. exact (emitted_when_ended R n H).
+  - destruct (@skip_runs N uh l k) as [s' R]. exact (emitted_when_ended R n H).
+  - destruct (@fuse_runs N uh (Some l)) as [s' R]. exact (emitted_when_ended R n H).
+Qed.
+
+Lemma levels_items : forall gs H up, horizon_ok gs H up = true ->
+  items (fst (levels gs H up)) = fold_left (fun l g => stage_ref g l) gs (items (fst up)).
+Proof.
+  induction gs as [|g r IH]; intros H up OK; simpl in *; auto.
+  apply andb_prop in OK. destruct OK as [E OK]. rewrite (IH H _ OK). f_equal.
+  unfold level. cbn [fst]. rewrite items_of_trace, stage_polls_firstn by lia.
+  apply stage_emitted_when_ended. exact E.
+Qed.
+
+Lemma conv_items t : tr_items_until (conv VN t) = map VN (emitted t).
+Proof. induction t as [|[h [b| |]] r IH]; simpl; auto. f_equal. exact IH. Qed.
+
+Lemma conv_has_end t : has_end (conv VN t) = has_end t.
+Proof. induction t as [|[h [b| |]] r IH]; simpl; auto. Qed.
+
+(* the composed model of a pipeline of any depth emits the composition of the adaptors *)
+Theorem pipe_items (c : pcase) n :
+  horizon_ok (p_inner c) (p_h c) (s_scr (p_src c), sh (p_src c)) = true ->
+  has_end (prun c n) = true ->
+  tr_items_until (prun c n) = pref c.
+Proof.
+  intros OK E. unfold prun, pref in *. rewrite conv_has_end in E. rewrite conv_items.
+  rewrite (stage_emitted_when_ended _ _ _ _ E), (levels_items _ _ _ OK). reflexivity.
+Qed.
